@@ -100,7 +100,7 @@ func factsReorder() {
 	})
 	boolExpr(g, "sbStale", "(fSeq next : Int)", mx, stale, vars)
 	boolExpr(g, "sbLoop", "(heapLen headSeq next : Int)", mx, forCond(fn, `nextRecvSeq`), vars)
-	evs := events(fn)
+	evs := eventsInl(mx, fn)
 	// closing tests: both the fast path and the drain loop test Closing != closingNothing
 	natFact(g, "sbClosingTests", count(evs, "if", `Closing != closingNothing`), "count of `Closing != closingNothing` tests in streamBuffer.Write")
 	// payload copy precedes heap.Push
@@ -110,7 +110,7 @@ func factsReorder() {
 	boolFact(g, "sbCopiesBeforePush", iMake >= 0 && iCopy > iMake && iPush > iCopy, "make+copy of payload precede heap.Push")
 	// nextRecvSeq advances by exactly one after each pipe write (2 sites)
 	natFact(g, "sbNextIncrs", count(evs, "assign", `^sb\.nextRecvSeq \+= 1$`)+count(evs, "incdec", `^sb\.nextRecvSeq\+\+$`), "increments of nextRecvSeq")
-	natFact(g, "sbPipeWrites", count(evs, "call", `^sb\.buf\.Write\(f\.Payload\)`), "pipe writes")
+	natFact(g, "sbPipeWrites", count(evs, "call", `^sb\.buf\.Write\(\w+\.Payload\)`), "pipe writes")
 	// lock held for the whole body
 	iLock := idx(evs, 0, "call", `^sb\.recvM\.Lock\(\)`)
 	iDefer := idx(evs, 0, "defer", `^sb\.recvM\.Unlock\(\)`)
